@@ -481,6 +481,8 @@ class MayRaise:
         if f[0] == "a":
             if f[2] in TOTAL_METHODS:
                 return False, ""
+            if f[2] == "decode" and f[1][0] == "call" and f[1][1] == ("g", "ext:binascii.hexlify"):
+                return False, ""        # hexadecimal digits are ASCII
             return True, "unresolved method call .%s()" % f[2]
         if f[0] in ("op",):
             return False, ""
